@@ -310,31 +310,41 @@ deriving Repr, DecidableEq
 def indexOf (l : List Int) (v : Int) : Option Nat :=
   (List.range l.length).find? (fun j => l.getD j 0 == v)
 
+/-- the new coordinates of a key under the orders, `none` when the entry is not selected: walk the higher axes,
+keep a coordinate (`None`), require and drop it (an int), or replace it by its position in the order list -/
+def sliceGo (k : Key) : Nat → List Order → List Int → Option (List Int)
+  | _, [], acc => some acc
+  | j, o :: rest, acc =>
+    let coord := k.getD (j + 1) 0
+    match o with
+    | .all => sliceGo k (j + 1) rest (acc ++ [coord])
+    | .one c => if coord == c then sliceGo k (j + 1) rest acc else none
+    | .list ks => match indexOf ks coord with
+      | some p => sliceGo k (j + 1) rest (acc ++ [(p : Int)])
+      | none => none
+
+/-- the higher extents after slicing: an axis is kept (`None`), dropped (an int) or gets the length of the order list -/
+def sliceTail : List Order → List Nat → List Nat
+  | [], _ => []
+  | o :: os, ext =>
+    match o with
+    | .all => ext.headD 0 :: sliceTail os ext.tail
+    | .one _ => sliceTail os ext.tail
+    | .list ks => ks.length :: sliceTail os ext.tail
+
+def sliceShape (i : IIndex) (orders : List Order) : List Nat := i.nrows :: sliceTail orders (i.shape.drop 1)
+
+/-- one entry of `sliced`: kept under its new key, or dropped -/
+def sliceStep (orders : List Order) (es : List (Key × Rows)) (e : Key × Rows) : List (Key × Rows) :=
+  match sliceGo e.1 0 orders [val0 e.1] with
+  | some k => dset es k e.2
+  | none => es
+
 /-- `sliced(*orders)` -/
-def sliced (i : IIndex) (orders : List Order) : M IIndex := do
+def sliced (i : IIndex) (orders : List Order) : M IIndex :=
   if orders.isEmpty then pure i else
   if orders.length > i.ndim - 1 then throw (.typeError "Cannot slice") else
-  let newShape := i.nrows :: ((List.range orders.length).filterMap fun j =>
-    match orders.getD j .all with
-    | .all => some (i.shape.getD (j + 1) 0)
-    | .one _ => none
-    | .list ks => some ks.length)
-  let es := i.entries.foldl (fun es (e : Key × Rows) =>
-    let rec go (j : Nat) (os : List Order) (acc : List Int) : Option (List Int) :=
-      match os with
-      | [] => some acc
-      | o :: rest =>
-        let coord := e.1.getD (j + 1) 0
-        match o with
-        | .all => go (j + 1) rest (acc ++ [coord])
-        | .one k => if coord == k then go (j + 1) rest acc else none
-        | .list ks => match indexOf ks coord with
-          | some p => go (j + 1) rest (acc ++ [(p : Int)])
-          | none => none
-    match go 0 orders [val0 e.1] with
-    | some k => dset es k e.2
-    | none => es) []
-  pure { entries := es, common := i.common, shape := newShape }
+  pure { entries := i.entries.foldl (sliceStep orders) [], common := i.common, shape := sliceShape i orders }
 
 /-- one bucket of `slices1d`: the entries whose last coordinate is `coord`, with that coordinate removed -/
 def bucket (i : IIndex) (coord : Nat) : IIndex :=
